@@ -95,10 +95,20 @@ na_reasons = {}
 
 checks = []
 na = []
+# additions made while the checks were strengthened against the seeded defects (DESIGN.md §7)
+extra = {
+ "C09": " In addition, histories of 5 operations (Put/advance the clock by a symbolic amount/GC/Replay) from the constructor's initial state are executed through the public API only and compared with the abstract list of (event, expiry) - independent of the replayer's representation.",
+ "C18": " Also: FiniteReplayers of capacity 2..17 built by the public constructor with N+3 Puts, ValidReplayer public-API histories, and a Replay to a failing client before the evicting Put / collecting GC; reachability counterexamples are confirmed natively by a reflection walk over the replayer.",
+ "C13": " A second harness runs a dispatch and an unsubscribe as two interpreted goroutines with mutex acquisitions as scheduling points (every interleaving), and one with a callback that cancels the request context.",
+ "C11": " A call that can never return in the scenario (a receive/select nothing will make ready, e.g. waiting for a timer that does not fire after the context ended) is reported as a hang and confirmed natively under a watchdog; Connect called repeatedly on one Connection is covered.",
+ "C12": " The quick tier also runs a jitter configuration over histories of 4 events with the random draws at {0, 1/2, largest double below 1} (the wait is monotone in the draw); the fully symbolic draw is in the thorough tier (z3 5.1 floating point).",
+ "C07": " Covered as well: a Shutdown context that ends while Joe is busy, consumers whose Send returns once a pending Publish or the Shutdown call has returned, and 'Shutdown returned nil implies every subscriber released'.",
+}
 for p in props:
     i = p["id"]
     if i in claimed:
         eng, tech, text, note, ref = claimed[i]
+        text += extra.get(i, "")
         checks.append({
             "property_id": i,
             "quick_cmd": f"./check {i} --tier quick",
@@ -126,8 +136,6 @@ m = {
  "engines": [
    {"name": "gosym", "path": "/verif/cmd/gosym", "serves_properties": sorted(k for k, v in claimed.items() if v[0] == E1),
     "kind_free_text": "path-forking symbolic executor for sequential Go SSA (go/ssa, x/tools v0.29.0) emitting SMT-LIB2 bit-vector queries to z3; counterexamples replayed natively with go test -overlay"},
-   {"name": "gobmc", "path": "/verif/cmd/gobmc", "serves_properties": sorted(k for k, v in claimed.items() if v[0] == E2),
-    "kind_free_text": "bounded model checker for Joe's goroutines: SSA -> transition system with symbolic schedule, decided by z3 (BMC unrolling / Spacer CHC)"},
  ],
  "checks": checks,
  "notes": "Solver-based checking of the real code only (see DESIGN.md). Exit codes of ./check: 0 held, 1 VIOLATION, 2 vacuous/unwinding exceeded, 3 inconclusive (unsupported construct, solver error, counterexample that does not replay).",
